@@ -15,7 +15,7 @@ from .c02 import B64, grid_states
 
 TYPES = gen.INT_TYPES
 CONTEXTS = ["cast", "init", "assign", "chainassign", "reg32", "reg64", "pred", "alias", "arg", "ret", "store",
-            "compound_add", "compound_mul", "compound_sub", "chainreg32", "chainpred"]
+            "compound_add", "compound_mul", "compound_sub", "compound_mod", "compound_div", "chainreg32", "chainpred"]
 
 
 def tn(t):
@@ -48,6 +48,11 @@ def cell_program(ctx, ts, tt):
         return f"{{ {a} {tn(tt)} t = 1; t += a; RddV = (int64_t)t; }}", tt
     if ctx == "compound_mul":
         return f"{{ {a} {tn(tt)} t = 3; t *= a; RddV = (int64_t)t; }}", tt
+    if ctx == "compound_mod":
+        # computed in the common type of t and (a | 1), then converted back to the type of t
+        return f"{{ {a} {tn(tt)} t = {'-7' if tt[0] else '250'}; t %= (a | 1); RddV = (int64_t)t; }}", tt
+    if ctx == "compound_div":
+        return f"{{ {a} {tn(tt)} t = {'-100' if tt[0] else '200'}; t /= (a | 1); RddV = (int64_t)t; }}", tt
     if ctx == "compound_sub":
         return f"{{ {a} {tn(tt)} t = 0; t -= a; RddV = (int64_t)t; }}", tt
     if ctx == "cast":
@@ -100,6 +105,11 @@ def bool_program(ctx, tt):
 
 def classes_of(ctx, ts, tt_eff):
     out = set()
+    if ctx in ("compound_mod", "compound_div") and ts is not None:
+        from ..cref.eval import common, promote
+        ct = common(promote(tt_eff), promote(ts))
+        if (tt_eff[0] and not ct[0] and ct[1] > tt_eff[1]) or (ts[0] and not ct[0] and ct[1] > ts[1]):
+            out.add("signed-to-wider-unsigned-zero-extends")
     if ts is not None and ts[0] and not tt_eff[0] and tt_eff[1] > ts[1]:
         out.add("signed-to-wider-unsigned-zero-extends")
     if ctx == "ret" and ts is not None and ts[0] and tt_eff[0] and tt_eff[1] > ts[1]:
@@ -125,7 +135,7 @@ def register_subs(c, subs):
                 subs[name] = make_subdef(name, tn(tt), [f"{tn(ts)} x"], "{ return x; }")
 
 
-def table_worker(cells, tier, open_classes):
+def table_worker(cells, tier, open_classes, tag="C03"):
     p = run.Part()
     c = boot.compiler()
     resolver = diff.make_resolver(c)
@@ -158,7 +168,7 @@ def table_worker(cells, tier, open_classes):
         try:
             body = reader.parse_body(il)
         except reader.ReadError as e:
-            p.failure(f"C03 il-unreadable {cellname}", {"program": text, "error": str(e)})
+            p.failure(f"{tag} il-unreadable {cellname}", {"program": text, "error": str(e)})
             continue
         ast = diff.parse_c(text)
         if tier == "thorough" and ts is not None and ts[1] == 8:
@@ -190,8 +200,8 @@ def table_worker(cells, tier, open_classes):
             nfail += 1
             first.setdefault(r[0], (stt, r[1]))
         for kind_, (stt, detail) in first.items():
-            tag = "class=" + ("+".join(sorted(cls)) if cls else "none")
-            p.failure(f"C03 table {tag} {kind_} {cellname}",
+            ctag = "class=" + ("+".join(sorted(cls)) if cls else "none")
+            p.failure(f"{tag} table {ctag} {kind_} {cellname}",
                       {"program": text, "state": stt, "kind": kind_, "detail": detail, "failing_states": nfail})
         if len(p.d["samples"]) < 2:
             p.sample({"cell": cellname, "program": text, "states": len(states)})
